@@ -5,6 +5,7 @@ import (
 	"bytes"
 	"encoding/json"
 	"fmt"
+	"git.metabarcoding.org/obitools/obitools4/obitools4/pkg/obiverif"
 	"math"
 	"os"
 	"path/filepath"
@@ -572,6 +573,11 @@ func runStream(c *core.Ctx) {
 	}
 	out.Consume()
 	obiiter.WaitForLastPipe()
+	// the file is read back through read buffers of several sizes: what the toolkit writes must not
+	// be cut at a place its own chunk splitter mistakes for a record start
+	chunk := []int{0, 50, 200, 1000, 4000}[c.Rng.Intn(5)]
+	obiverif.SetChunk(chunk)
+	defer obiverif.SetChunk(0)
 	rd, err := obiformats.ReadSequencesFromFile(path, obiformats.OptionsParallelWorkers(1+c.Rng.Intn(4)))
 	if err != nil {
 		c.Violate("stream:read-error", "the written file cannot be read back", map[string]any{"error": err.Error()})
@@ -599,8 +605,8 @@ func runStream(c *core.Ctx) {
 	}
 	c.Count("evaluations", 1)
 	c.Count("stream_records", n)
-	c.Key("stream/%v/%d", fastq, n/10)
-	det := map[string]any{"fastq": fastq, "records": n}
+	c.Key("stream/%v/%d/%d", fastq, n/10, chunk)
+	det := map[string]any{"fastq": fastq, "records": n, "forced_read_buffer": chunk}
 	if len(order) != n {
 		det["read_back"] = len(order)
 		c.Violate("stream:record-count", "the file written by the toolkit is not read back as the same number of records", det)
